@@ -110,6 +110,8 @@ class CallMixin:
         if not (isinstance(first.iter, ast.Call) and isinstance(first.iter.func, ast.Name) and first.iter.func.id == "range"):
             it0 = self.eval(first.iter, st)
             items = it0.items if isinstance(it0, SList) else (list(it0.d.keys()) if type(it0).__name__ == "_Map" else it0)
+            if isinstance(items, dict):
+                items = list(items.keys())
             if isinstance(items, (list, tuple)) and not (items and items[0] == "range" and isinstance(items, tuple)):
                 if kind == "sum" or not isinstance(first.target, ast.Name):
                     raise Unsupported("generator form (line %d)" % g.lineno)
